@@ -30,7 +30,7 @@ def check_pair(B, name, blocks, expected, care=None):
 class StripeCubeCounts(Contract):
     """the three count classes of a strand against the valid-element tensor of the response"""
 
-    props = ("C01", "C02", "C09")
+    props = ("C01", "C02", "C03", "C09", "C11")
 
     def __init__(self, kind):
         self.kind = kind
@@ -70,7 +70,7 @@ class StripeCountsFactory(Contract):
     as a stack of strands (ca_as_0th) hands strand k the k-th row of the counts (C06)"""
 
     name = CM + ":_BaseCubeCounts.factory"
-    props = ("C01", "C06", "C02")
+    props = ("C01", "C02", "C03", "C06", "C09")
 
     def configs(self):
         out = [dict(ca=False, t=t) for t in _TYPES]
@@ -154,7 +154,7 @@ class StripeCubeMeasuresWiring(Contract):
     measures come from the cube property of the same name"""
 
     name = CM + ":CubeMeasures.<wiring>"
-    props = ("C01", "C02")
+    props = ("C01", "C02", "C03", "C04", "C09")
 
     def configs(self):
         return [dict(valid=v) for v in (False, True)]
@@ -358,8 +358,8 @@ def _mk(cls_name, props, expected, measures=None, kinds=spec.SKINDS, dates=False
 
 
 # ---- counts and bases --------------------------------------------------------------------
-_mk("_WeightedCounts", ("C01", "C04"), lambda B, env: spec.s_count_blocks(B, env, env.w))
-_mk("_UnweightedCounts", ("C01", "C04"), lambda B, env: spec.s_count_blocks(B, env, env.u))
+_mk("_WeightedCounts", ("C01", "C04", "C03"), lambda B, env: spec.s_count_blocks(B, env, env.w))
+_mk("_UnweightedCounts", ("C01", "C04", "C02"), lambda B, env: spec.s_count_blocks(B, env, env.u))
 
 
 def _range_check(which, attr):
@@ -375,9 +375,9 @@ def _range_check(which, attr):
     return extra
 
 
-_mk("_WeightedBases", ("C02", "C04"), lambda B, env: spec.s_base_blocks(B, env, env.w),
+_mk("_WeightedBases", ("C02", "C04", "C03", "C11"), lambda B, env: spec.s_base_blocks(B, env, env.w),
     extra=_range_check("w", "table_margin_range"))
-_mk("_UnweightedBases", ("C02", "C04"), lambda B, env: spec.s_base_blocks(B, env, env.u),
+_mk("_UnweightedBases", ("C02", "C04", "C03"), lambda B, env: spec.s_base_blocks(B, env, env.u),
     extra=_range_check("u", "table_base_range"))
 
 
@@ -422,7 +422,7 @@ def _prop_laws(B, env, obj):
         )
 
 
-_mk("_TableProportions", ("C03", "C04"), lambda B, env: spec.s_proportion_blocks(B, env, env.w),
+_mk("_TableProportions", ("C03", "C04", "C11", "C17"), lambda B, env: spec.s_proportion_blocks(B, env, env.w),
     measures=_m_counts, dates=True, extra=_prop_laws)
 
 
@@ -714,7 +714,7 @@ class StripeMeasuresWiring(Contract):
     one (C09: weights play no part)"""
 
     name = MS + ":StripeMeasures.<wiring>"
-    props = ("C01", "C02", "C03", "C09", "C11", "C14", "C15", "C17", "C20")
+    props = ("C01", "C02", "C03", "C04", "C09", "C11", "C14", "C15", "C17", "C20")
 
     def run(self, B, cfg):
         cube, dim = B.stub("cube"), B.stub("rows_dimension")
@@ -818,7 +818,7 @@ class StrandWiring(Contract):
     come straight from the measure (no display transform can reach them)"""
 
     name = CP + ":_Strand.<public properties>"
-    props = ("C05", "C01", "C02", "C03", "C11", "C14", "C15", "C20")
+    props = ("C05", "C01", "C02", "C03", "C04", "C09", "C11", "C14", "C15", "C17", "C20")
 
     def run(self, B, cfg):
         class Rec:
